@@ -543,6 +543,12 @@ func (o *OutputWithFee) CloseOutputs(accountValue btcutil.Amount,
 	// way to determine if the output can even be created.
 	var dustLimit btcutil.Amount
 	switch pkScript.Class() {
+	case txscript.PubKeyHashTy:
+		weightEstimator.AddP2PKHOutput()
+		dustLimit = lnwallet.DustLimitForSize(
+			input.P2PKHSize,
+		)
+
 	case txscript.WitnessV0PubKeyHashTy:
 		weightEstimator.AddP2WKHOutput()
 		dustLimit = lnwallet.DustLimitForSize(
